@@ -63,6 +63,8 @@ def run(e: Engine, rep: Report):
              'class / exit status / resolver outcome')
     rep.rule('N6', 'bytes from the subprocess are not compared with str '
              'literals nor put into a Reply undecoded')
+    rep.rule('N7', 'a per-recipient result mapping built by a relay is '
+             'total over envelope.recipients on every path that returns it')
     rep.tables.add('c11.N2_EXEMPT')
     rep.not_decided += ['what a real peer sends', 'enumeration of downstream '
                         'scripts as executions', 'HTTP 4xx->permanent / '
@@ -75,6 +77,8 @@ def run(e: Engine, rep: Report):
     n4(e, rep, K)
     pool.request_typestate(e, rep, 'N5')
     n6(e, rep, K)
+    n7(e, rep, 'N7')
+    n4_catch_all(e, rep)
     rep.floor('N1', 9, 'relay implementations / set sites')
     rep.floor('N2', 12, 'client command sites')
 
@@ -607,3 +611,185 @@ def n6(e: Engine, rep: Report, K: Kinds):
     if nsites < 3:
         rep.error('anchor vanished: bytes/str sites in raise_error '
                   'overrides (%d < 3)' % nsites)
+
+
+# -------------------------------------------------------------------- N7
+def n7(e: Engine, rep: Report, rule: str):
+    """Totality of per-recipient mappings.  A relay that builds its result
+    with `results[rcpt] = ...` inside a loop over envelope.recipients must
+    return a mapping that has an entry for every recipient on every path
+    (also when the loop is left by an exception): recipients without an
+    entry are invisible to Queue._handle_partial_relay - neither delivered,
+    retried nor bounced - and vanish when the message is removed."""
+    found = 0
+    for cq in e.concrete_classes(RELAY):
+        if not cq.startswith('slimta.relay.pipe'):
+            continue
+        ctx = e.method_ctx(cq, '_try_pipe_all_rcpts')
+        if ctx.func.cls.qname != cq and cq != 'slimta.relay.pipe.PipeRelay':
+            continue
+        g = e.build(ctx, raises=pool.make_raises(e), assert_raises=False)
+        where = ctx.func.qname
+        rep.functions.add(where)
+        rets = [n for n in g.of_kind('stmt')
+                if isinstance(n.ast, ast.Return) and
+                isinstance(n.ast.value, ast.Name)]
+        for r in rets:
+            rv = path_of(r.ast.value, r.frame)
+            # loops over envelope.recipients that assign rv[<loopvar>] in
+            # every iteration (possibly under `not in rv`)
+            good = []
+            for lp in g.of_kind('iter'):
+                if not (isinstance(lp.ast, ast.For) and 'recipients' in
+                        ast.unparse(lp.ast.iter)):
+                    continue
+                lv = path_of(lp.ast.target, lp.frame)
+
+                def is_set(n, lp=lp, lv=lv):
+                    return n.kind == 'stmt' and \
+                        isinstance(n.ast, ast.Assign) and \
+                        isinstance(n.ast.targets[0], ast.Subscript) and \
+                        path_of(n.ast.targets[0].value, n.frame) == rv and \
+                        path_of(n.ast.targets[0].slice, n.frame) == lv
+                # per iteration: either the entry is assigned, or the path
+                # established that it already exists
+                def step(n, label, st, lp=lp, lv=lv):
+                    if st:
+                        return True
+                    if is_set(n) and not isinstance(label, tuple):
+                        return True
+                    if n.kind == 'test' and label == 'F':
+                        from ..facts import atoms_of_test
+                        for pol, k in atoms_of_test(n.ast, False, n.frame):
+                            if pol and k == '%s in %s' % (lv, rv):
+                                return True
+                    return False
+                body = [s for l, s in lp.succ if l == 'body']
+                if not body:
+                    continue
+                miss = dataflow.typestate_witness(
+                    g, False, step, lambda n, st: n is lp and not st,
+                    start=body[0])
+                if miss is None:
+                    good.append(lp)
+            if not good:
+                continue
+            found += 1
+            rep.evaluations += 1
+
+            def tstep(n, label, st):
+                if n in good and label == 'done':
+                    return True
+                return st
+            pth = dataflow.typestate_witness(
+                g, False, tstep, lambda n, st: n is r and not st)
+            rep.check(pth is None, rule, where,
+                      'returned mapping has an entry for every recipient',
+                      'the per-recipient result can be returned without a '
+                      'completed pass over envelope.recipients (the loop '
+                      'was left by an exception and the handler does not '
+                      'fill in the rest): recipients without an entry are '
+                      'never retried or bounced', loc=r.loc(),
+                      reason='a completed fill loop precedes every return',
+                      witness=dataflow.render_path(pth, 16) if pth else None)
+    if found < 1:
+        rep.error('anchor vanished: per-recipient mapping construction in '
+                  'the pipe relay')
+
+
+# ------------------------------------------------ N4: catch-all translation
+def _transient_by_construction(e: Engine, g, fx, n: Node, expr) -> bool:
+    """Is the Reply denoted by `expr` (evaluated at node n) provably 4xx?"""
+    if isinstance(expr, ast.Call):
+        f = expr.func
+        # Reply('4xx', ...)
+        if ast.unparse(f).endswith('Reply') and expr.args and \
+                isinstance(expr.args[0], ast.Constant) and \
+                str(expr.args[0].value).startswith('4'):
+            return True
+        # Reply(...).copy(<4xx constant>)
+        if isinstance(f, ast.Attribute) and f.attr == 'copy' and expr.args:
+            code = common.reply_constant_code(e, expr.args[0], n.ctx)
+            if code and code.startswith('4'):
+                return True
+        return False
+    p = path_of(expr, n.frame)
+    if p is None:
+        return False
+    st = fx.at(n) or frozenset()
+    for pol, k in st:
+        if pol and k.startswith(p + '.code == ') and \
+                k.endswith("'") and k.split("== '")[1].startswith('4'):
+            return True
+    # single definition from a transient expression
+    defs = [s for s in g.of_kind('stmt') if isinstance(s.ast, ast.Assign)
+            and path_of(s.ast.targets[0], s.frame) == p]
+    return bool(defs) and all(
+        _transient_by_construction(e, g, fx, d, d.ast.value) for d in defs)
+
+
+def n4_catch_all(e: Engine, rep: Report):
+    """Disconnects, timeouts and socket errors are reported as transient:
+    the reply handed to SmtpRelayError.factory in those arms of _run is 4xx
+    by construction."""
+    for cq in e.concrete_classes(SMTPC):
+        short = cq.rpartition('.')[2]
+        ctx = e.method_ctx(cq, '_get_error_reply')
+        if cq != SMTPC and ctx.func.cls.qname != cq:
+            continue
+        g = e.build(ctx, raises=lambda b, n, r: set())
+        fx = e.facts(g)
+        where = '%s[%s]' % (ctx.func.qname, short)
+        rep.functions.add(ctx.func.qname)
+        rets = [n for n in g.of_kind('stmt')
+                if isinstance(n.ast, ast.Return) and n.ast.value is not None
+                and fx.at(n) is not None]
+        if not rets:
+            rep.error('anchor vanished: returns of _get_error_reply')
+        for r in rets:
+            rep.evaluations += 1
+            rep.check(_transient_by_construction(e, g, fx, r, r.ast.value),
+                      'N4', where, 'error reply `%s` is 4xx by construction'
+                      % r.text(40),
+                      'the reply used to report a lost connection can be an '
+                      'earlier non-4xx reply of the session: a disconnect '
+                      'is then classified as a permanent failure and the '
+                      'message bounces instead of being retried',
+                      loc=r.loc(), reason="constant 4xx Reply, or reused "
+                      "only under code == '421'")
+    ctx = e.method_ctx(SMTPC, '_run')
+    g = e.build(ctx, raises=pool.make_raises(e), assert_raises=False)
+    fx = e.facts(g)
+    where = ctx.func.qname
+    arms = [h for h in g.of_kind('handler') if h.frame is g.entry.frame and
+            any(t in ('gevent.Timeout', 'builtins.OSError') or
+                t.endswith('.SmtpError') for t in h.extra.get('types', []))]
+    n_f = 0
+    for h in arms:
+        inside = [m for m in g.nodes if any(
+            sc.kind == 'handler' and sc.ast is h.ast for sc in m.scopes)]
+        for m in inside:
+            if m.kind == 'call' and e.call_name(m) == 'factory' and \
+                    m.ast.args:
+                a = m.ast.args[0]
+                p = path_of(a, m.frame)
+                defs = [s for s in inside if s.kind == 'stmt' and
+                        isinstance(s.ast, ast.Assign) and
+                        path_of(s.ast.targets[0], s.frame) == p]
+                ok = bool(defs) and all(
+                    (isinstance(d.ast.value, ast.Call) and
+                     e.call_name_of(d.ast.value) == '_get_error_reply') or
+                    _transient_by_construction(e, g, fx, d, d.ast.value)
+                    for d in defs)
+                n_f += 1
+                rep.evaluations += 1
+                rep.check(ok, 'N4', where,
+                          'catch-all arm `%s` reports a transient failure'
+                          % h.text(30),
+                          'an I/O error / timeout arm of _run builds its '
+                          'relay error from a reply that is not 4xx by '
+                          'construction', loc=m.loc(),
+                          reason='4xx constant or _get_error_reply')
+    if n_f < 3:
+        rep.error('anchor vanished: factory(...) in the I/O arms of _run '
+                  '(%d < 3)' % n_f)
